@@ -112,9 +112,12 @@ func buildPlan(id string, pinned map[string]string, tier string) *Plan {
 		for _, rel := range pairingPkgs("/repo") {
 			p.Units = append(p.Units, Unit{Pkg: "./" + rel, Tags: "", Groups: []string{"pairing"}})
 		}
+		for _, pk := range exptPkgs("/repo") {
+			p.Units = append(p.Units, Unit{Pkg: pk, Tags: "", Groups: []string{"expt"}})
+		}
 		p.Trusted = []string{
-			"module layer on the target group: GT is an abelian group written multiplicatively (exponent vectors over indeterminates); Mul adds, squarings double, Inverse / InverseUnitary negate",
-			"ASSUMED component contracts (none of them is under contract; their tower arithmetic is proved under C06): Expt / ExptHalf raise to the seed x / to x/2, Frobenius^i raises to p^i, Conjugate raises to p^(k/2) (hence to -1 on the cyclotomic subgroup the easy part maps into), CyclotomicSquare squares on that subgroup",
+			"module layer on the target group: GT is an abelian group written multiplicatively (exponent vectors over indeterminates); Mul adds, squarings (cyclotomic and compressed ones included) double, Karabina's decompression is the identity, Inverse negates, Conjugate / InverseUnitary multiply by a symbolic factor that the final exponentiations set to -1 after their easy part",
+			"ASSUMED component contracts (their tower arithmetic is proved under C06): Expt / ExptHalf raise to the seed x / to x/2 (Expt of bn254 and bls12-377 is PROVED at the module layer: the addition chain yields exactly the documented seed; the others remain assumed), Frobenius^i raises to p^i, Conjugate raises to p^(k/2) (hence to -1 on the cyclotomic subgroup the easy part maps into), CyclotomicSquare squares on that subgroup",
 			"the documented family polynomials p(x), r(x) of the BN / BLS12 / BLS24 curves (doc.go of each package), with the seed restricted to the residue class that makes p an integer (and x even where ExptHalf is used); the concrete seeds of the four curves lie in their class (checked when the contract was written: recorded in the contract text)"}
 		p.Assumptions = []string{"the extra arguments of FinalExponentiation enter through a ghost accumulator: the clause says that the value raised is the product of the first argument and of every extra argument the loop reads (each exactly once)",
 			"MillerLoop, MillerLoopFixedQ and FinalExponentiation are opaque inside the entry points: only their composition is proved there"}
